@@ -94,7 +94,9 @@ def known_for(prop: str) -> list[dict]:
 
 
 def viol_matches(v: dict, k: dict) -> bool:
-    return v.get("oracle") == k.get("oracle") and v.get("sig") == k.get("sig")
+    sigs = k.get("sig")
+    sigs = sigs if isinstance(sigs, list) else [sigs]
+    return v.get("oracle") == k.get("oracle") and v.get("sig") in sigs
 
 
 # ---- batch ------------------------------------------------------------------------------------------------------------
